@@ -1556,4 +1556,365 @@ theorem hs_packet_step (hl : H.Lawful) (kl : List Keylog.Key) (L : SealLaws Pc) 
 
 end HsPacket
 
+/-! ### a handshake packet on the wire -/
+
+theorem longOf_first (x : SPkt) (pl : Bytes) (hs : LongShape x) (h1 : 1 ≤ x.pnLen) (h4 : x.pnLen ≤ 4) :
+    (longOf x pl).first = firstByteLong x := by
+  unfold Long.first firstByteLong longOf
+  simp only [pnBytes_length, hs.typeBits]
+  congr 1
+  have : (ltypeOf x.level).bits < 4 := by cases x.level <;> simp [ltypeOf, LType.bits]
+  omega
+
+theorem longOf_wf (x : SPkt) (pl : Bytes) (hs : LongShape x) (h1 : 1 ≤ x.pnLen) (h4 : x.pnLen ≤ 4)
+    (hpl : pl.length = (encodeAll x.frames).length + 16) : (longOf x pl).wf := by
+  refine ⟨?_, ?_, ?_, ?_, ?_, ?_, ?_, ?_⟩
+  · show x.lowBits % 4 < 4; omega
+  · show x.version.length = 4; rw [hs.version]; rfl
+  · show x.dcid.length ≤ 255; have := hs.dcid; omega
+  · show x.scid.length ≤ 255; have := hs.scid; omega
+  · show 1 ≤ (pnBytes x.pnLen x.pn).length; rw [pnBytes_length]; exact h1
+  · show (pnBytes x.pnLen x.pn).length ≤ 4; rw [pnBytes_length]; exact h4
+  · exact hs.tok
+  · show x.lenW.fits ((pnBytes x.pnLen x.pn).length + pl.length)
+    rw [pnBytes_length, hpl, ← Nat.add_assoc]; exact hs.len
+
+theorem longOf_toPkt (sealFn : Seal) (alg : Alg) (k : DirKeys) (x : SPkt) (hs : LongShape x)
+    (h1 : 1 ≤ x.pnLen) (h4 : x.pnLen ≤ 4)
+    (hpl : (protectedPayload sealFn alg k x).length = (encodeAll x.frames).length + 16) :
+    (longOf x (protectedPayload sealFn alg k x)).toPkt x.srv x.ts = emit sealFn alg k x := by
+  have hne : x.level ≠ .oneRtt := by rcases hs.level with h | h <;> simp [h]
+  unfold Long.toPkt emit
+  rw [longOf_first x _ hs h1 h4]
+  simp only [hne, if_false]
+  rcases hs.level with h | h <;>
+    simp [longOf, h, ltypeOf, LType.ptype, Level.ptype, Long.lengthField, lengthField, pnBytes_length, hpl, Nat.add_assoc]
+
+/-! ### handshake datagrams through `handle_packet` -/
+
+section HsDatagram
+variable (maskFn : Dissect.MaskFn) (H : Crypto.Prims) (Pc : Cipher.Prims)
+
+/-- what the observer's bookkeeping is after the packets so far: keys installed?, largest packet numbers, CID sets, and the
+    parser part of the TLS session (the concrete `QuicTlsSession` on the CRYPTO inputs so far) -/
+structure Trk where
+  keyed : Bool
+  tc : PnTab
+  ts : PnTab
+  cc : List Bytes
+  sc : List Bytes
+  core : Tls
+
+def Trk.step (t : Trk) (x : SPkt) : Trk :=
+  { keyed := t.keyed || (pfired t.core (cryptoIns x) && !(!x.srv && decide (x.level = .initial))),
+    tc := if x.srv then t.tc else bump t.tc (spaceOf x.level) x.pn,
+    ts := if x.srv then bump t.ts (spaceOf x.level) x.pn else t.ts,
+    cc := (learn t.cc t.sc x).1, sc := (learn t.cc t.sc x).2,
+    core := pfold t.core (cryptoIns x) }
+
+/-- `tls_session.ciphersuite == b"\x13\x03"` as the dissector is told -/
+def chachaOf (core : Tls) : Bool := core.msgs.ciphersuite == some [0x13, 0x03]
+
+/-- the header-protection key of a handshake-level packet (RFC 9001 §5.1 / §5.2) -/
+def lvlHp (dcid0 : Bytes) (sel : SuiteSel) (sh ch : Bytes) (lv : Level) (srv : Bool) : Bytes :=
+  if lv = .initial then
+    (if srv then (quicInitialServerKeys H.sha256 dcid0).hp else (quicInitialClientKeys H.sha256 dcid0).hp)
+  else quicHp (hashOf H sel.hash) (if srv then sh else ch) sel.keyLen
+
+/-- one handshake-level packet of a conformant sender, relative to the bookkeeping `t`:
+    `shape`   QUIC v1 long header of level Initial / Handshake (`LongShape`);
+    `keys`    a Handshake packet comes after the ServerHello was seen (the keys are installed);
+    `late`    once the keys are installed a client Initial carries no CRYPTO frame (it only acknowledges);
+    `frames`  RFC 9000 §12.4 frame types, well formed; `pn`: RFC 9000 §17.1 window per space and direction;
+    `mask`    header protection with the level's key (AES-based for Initial, the suite's otherwise) -/
+structure HsPkOk (L : SealLaws Pc) (dcid0 : Bytes) (sel : SuiteSel) (sh ch : Bytes) (t : Trk) (q : PkH) : Prop where
+  shape : LongShape q.x
+  keys : q.x.level = .handshake → t.keyed = true
+  late : t.keyed = true → ¬ (q.x.srv = false ∧ q.x.level = .initial) ∨ cryptoIns q.x = []
+  frames : ∀ f ∈ q.x.frames, hsFrameQ f = true
+  wf : WellFormedSeq q.x.frames
+  pn : PnLenOk ((if q.x.srv then t.ts else t.tc).get (spaceOf q.x.level)) q.x.pn q.x.pnLen
+  mask : maskFn (senderChacha (ltypeOf q.x.level) (chachaOf t.core)) (lvlHp H dcid0 sel sh ch q.x.level q.x.srv)
+    (longOf q.x (protectedPayload L.aeadSeal (lvlDec H dcid0 sel sh ch q.x.level).alg
+      (lvlKey H dcid0 sel sh ch q.x.level q.x.srv) q.x)).sample = some q.mask
+  mask5 : 5 ≤ q.mask.length
+
+def pkWire (L : SealLaws Pc) (dcid0 : Bytes) (sel : SuiteSel) (sh ch : Bytes) (q : PkH) : Bytes :=
+  q.wire L.aeadSeal (lvlDec H dcid0 sel sh ch q.x.level).alg (lvlKey H dcid0 sel sh ch q.x.level q.x.srv)
+
+theorem chachaOf_core (s : St Tls) : (envOf s).chacha = chachaOf (coreOf s.tls) := rfl
+
+theorem hs_turn (hl : H.Lawful) (kl : List Keylog.Key) (L : SealLaws Pc) (dcid0 cr csel ch sh ca sa : Bytes)
+    (early : Option Bytes) (sel : SuiteSel) (hsel : selectSuite csel = some sel) (hkl : KeylogHas kl cr ch sh ca sa early)
+    (t : Trk) (q : PkH) (hok : HsPkOk maskFn H Pc L dcid0 sel sh ch t q) (rest : List CryptoIn)
+    (s : St Tls) (hst : HsSt H dcid0 sel ch sh ca sa t.keyed s t.tc t.ts t.cc t.sc t.core)
+    (htr : PTrace cr csel t.core (cryptoIns q.x ++ rest)) (guessed more : Bytes) :
+    ∃ s', HsSt H dcid0 sel ch sh ca sa (t.step q.x).keyed s' (t.step q.x).tc (t.step q.x).ts (t.step q.x).cc
+        (t.step q.x).sc (t.step q.x).core ∧
+      PTrace cr csel (t.step q.x).core rest ∧
+      (Dissect.dissectLoop maskFn (fun x : LoopSt => envOf x.1) (handleTurn (params H Pc kl)) q.x.srv guessed q.x.ts
+        (s, none) (pkWire H Pc L dcid0 sel sh ch q ++ more)).1 =
+      (Dissect.dissectLoop maskFn (fun x : LoopSt => envOf x.1) (handleTurn (params H Pc kl)) q.x.srv guessed q.x.ts
+        (s', none) more).1 := by
+  obtain ⟨hshape, hkeys, hlate, hframes, hwf, hpn, hmask, hm5⟩ := hok
+  have hpn0 := hpn
+  obtain ⟨⟨hn1, hn4⟩, _⟩ := hpn
+  have hlv : q.x.level = .initial ∨ (q.x.level = .handshake ∧ t.keyed = true) := by
+    rcases hshape.level with h | h
+    · exact Or.inl h
+    · exact Or.inr ⟨h, hkeys h⟩
+  obtain ⟨p1, p2, p3, p4, p5⟩ := hs_packet_step H Pc hl kl L dcid0 cr csel ch sh ca sa early sel hsel hkl t.keyed q.x hlv
+    hlate hframes hwf rest s t.tc t.ts t.cc t.sc t.core hst hpn0 htr
+  -- AEAD output length
+  have hlawS : (hashOf H sel.hash).Lawful := by cases sel.hash <;> simp [hashOf, hl.sha256, hl.sha384]
+  have hcases : (sel.alg = .aesgcm ∧ sel.keyLen = 16) ∨ (sel.alg = .aesgcm ∧ sel.keyLen = 32) ∨
+      (sel.alg = .chachaPoly ∧ sel.keyLen = 32) ∨ (sel.alg = .aesccm ∧ sel.keyLen = 16) := by
+    unfold selectSuite at hsel
+    repeat' split at hsel
+    all_goals first
+      | (cases hsel; simp)
+      | (simp at hsel)
+  have hk255 : sel.keyLen ≤ 255 := by rcases hcases with h | h | h | h <;> omega
+  have haead : AeadOk (lvlDec H dcid0 sel sh ch q.x.level).alg (lvlKey H dcid0 sel sh ch q.x.level q.x.srv).key.length
+      (lvlKey H dcid0 sel sh ch q.x.level q.x.srv).iv.length 16 := by
+    unfold lvlKey lvlDec
+    rcases hshape.level with h | h
+    · cases q.x.srv <;>
+        simp [h, initDec, quicInitialServerKeys, quicInitialClientKeys, quicPacketKeys, quicKey_length _ hl.sha256,
+          quicIv_length _ hl.sha256] <;> decide
+    · cases q.x.srv <;> simp [h, hsDec, quicKey_length _ hlawS _ _ hk255, quicIv_length _ hlawS] <;>
+        (rcases hcases with ⟨a, b⟩ | ⟨a, b⟩ | ⟨a, b⟩ | ⟨a, b⟩ <;> rw [a, b] <;> decide)
+  generalize hkd : lvlKey H dcid0 sel sh ch q.x.level q.x.srv = kd at *
+  generalize had : (lvlDec H dcid0 sel sh ch q.x.level).alg = ad at *
+  have hlen : (protectedPayload L.aeadSeal ad kd q.x).length = (encodeAll q.x.frames).length + 16 := by
+    unfold protectedPayload
+    have hnl : (nonce kd.iv q.x.pn).length = kd.iv.length := by simp [nonce, Lemmas.QuicVarint.ofNatBE_length]
+    exact L.seal_len _ _ _ _ _ _ (by rw [hnl]; exact haead)
+  -- the dissector returns the sender's packet
+  have hkey : (envOf s).keys (senderKey (ltypeOf q.x.level) q.x.srv) = some (lvlHp H dcid0 sel sh ch q.x.level q.x.srv) := by
+    unfold lvlHp
+    rcases hshape.level with h | h
+    · cases hs : q.x.srv <;> simp [h, ltypeOf, senderKey, envOf, HpKeys.get, hst.inv.hpSI, hst.inv.hpCI]
+    · have hk := hst.keyed (hkeys h)
+      cases hs : q.x.srv <;> simp [h, ltypeOf, senderKey, envOf, HpKeys.get, hk.hpSH, hk.hpCH]
+  have hextract : Dissect.extract maskFn (envOf s) q.x.srv guessed q.x.ts (pkWire H Pc L dcid0 sel sh ch q ++ more) =
+      { pkts := [emit L.aeadSeal ad kd q.x], rest := more } := by
+    have := C02Dissect.dissect_encode_long maskFn (envOf s) q.x.srv guessed q.x.ts
+      (longOf q.x (protectedPayload L.aeadSeal ad kd q.x)) (longOf_wf _ _ hshape hn1 hn4 hlen)
+      (by show q.x.version ≠ _; rw [hshape.version]; decide)
+      (by show q.x.scid.length ≤ 63; have := hshape.scid; omega)
+      (by show 20 ≤ (pnBytes q.x.pnLen q.x.pn).length + (protectedPayload L.aeadSeal ad kd q.x).length
+          rw [pnBytes_length, hlen]; have := hshape.padded; omega)
+      _ q.mask hkey
+      (by rw [chachaOf_core, hst.core]; exact hmask) hm5 more
+    rw [longOf_toPkt _ _ _ _ hshape hn1 hn4 hlen] at this
+    unfold pkWire PkH.wire
+    rw [hkd, had]
+    exact this
+  have hne : pkWire H Pc L dcid0 sel sh ch q ++ more ≠ [] := by
+    unfold pkWire PkH.wire Long.protect applyMask; simp
+  have p3' : HsSt H dcid0 sel ch sh ca sa (t.step q.x).keyed (stepPkt (params H Pc kl) s (emit L.aeadSeal ad kd q.x)).st
+      (t.step q.x).tc (t.step q.x).ts (t.step q.x).cc (t.step q.x).sc (t.step q.x).core := by
+    refine ⟨p3.inv, p3.nd, p3.core, p3.pc, p3.ps, p3.cc, p3.sc, ?_⟩
+    intro hk
+    simp only [Trk.step, Bool.or_eq_true, Bool.and_eq_true] at hk
+    rcases hk with hk | ⟨hf, hni⟩
+    · exact p3.keyed hk
+    · exact p4 hf (by intro ⟨a, b⟩; simp [a, b] at hni)
+  refine ⟨_, p3', p5, ?_⟩
+  rw [Lemmas.QuicDissect.dissectLoop_cons _ _ _ _ _ _ _ _ hne]
+  simp only [hextract]
+  have hturn : handleTurn (params H Pc kl) (s, none) [emit L.aeadSeal ad kd q.x] =
+      ((stepPkt (params H Pc kl) s (emit L.aeadSeal ad kd q.x)).st, none) := by
+    unfold handleTurn
+    simp only [handleQuicPackets, p1]
+    congr 1
+    exact stampVer_id _ p3.inv.ver
+  rw [hturn]
+
+end HsDatagram
+
+section HsRun
+variable (maskFn : Dissect.MaskFn) (H : Crypto.Prims) (Pc : Cipher.Prims) (info : Nat → Pipeline.Info)
+
+def Trk.run (t : Trk) (qs : List PkH) : Trk := qs.foldl (fun t q => t.step q.x) t
+
+/-- the CRYPTO inputs of a packet list, in processing order -/
+def insOf (qs : List PkH) : List CryptoIn := qs.flatMap fun q => cryptoIns q.x
+
+def HsPks (L : SealLaws Pc) (dcid0 : Bytes) (sel : SuiteSel) (sh ch : Bytes) : Trk → List PkH → Prop
+  | _, [] => True
+  | t, q :: qs => HsPkOk maskFn H Pc L dcid0 sel sh ch t q ∧ HsPks L dcid0 sel sh ch (t.step q.x) qs
+
+def dgWire (L : SealLaws Pc) (dcid0 : Bytes) (sel : SuiteSel) (sh ch : Bytes) (d : DgH) : Bytes :=
+  (d.pkts.map (pkWire H Pc L dcid0 sel sh ch)).flatten
+
+theorem hs_loop (hl : H.Lawful) (kl : List Keylog.Key) (L : SealLaws Pc) (dcid0 cr csel ch sh ca sa : Bytes)
+    (early : Option Bytes) (sel : SuiteSel) (hsel : selectSuite csel = some sel) (hkl : KeylogHas kl cr ch sh ca sa early)
+    (srv : Bool) (ts : Nat) (guessed : Bytes) (qs : List PkH) (hdir : ∀ q ∈ qs, q.x.srv = srv ∧ q.x.ts = ts)
+    (rest : List CryptoIn) (t : Trk) (s : St Tls)
+    (hst : HsSt H dcid0 sel ch sh ca sa t.keyed s t.tc t.ts t.cc t.sc t.core)
+    (hok : HsPks maskFn H Pc L dcid0 sel sh ch t qs) (htr : PTrace cr csel t.core (insOf qs ++ rest)) :
+    ∃ s', HsSt H dcid0 sel ch sh ca sa (t.run qs).keyed s' (t.run qs).tc (t.run qs).ts (t.run qs).cc (t.run qs).sc
+        (t.run qs).core ∧
+      PTrace cr csel (t.run qs).core rest ∧
+      (Dissect.dissectLoop maskFn (fun x : LoopSt => envOf x.1) (handleTurn (params H Pc kl)) srv guessed ts
+        (s, none) ((qs.map (pkWire H Pc L dcid0 sel sh ch)).flatten)).1 = (s', none) := by
+  induction qs generalizing t s with
+  | nil => exact ⟨s, hst, htr, by simp [Lemmas.QuicDissect.dissectLoop_nil]⟩
+  | cons q qs ih =>
+    obtain ⟨hq, hqs⟩ := hok
+    obtain ⟨hsv, hts⟩ := hdir q (List.mem_cons_self ..)
+    have htr' : PTrace cr csel t.core (cryptoIns q.x ++ (insOf qs ++ rest)) := by
+      simpa [insOf, List.flatMap_cons, List.append_assoc] using htr
+    obtain ⟨s1, a1, a2, a3⟩ := hs_turn maskFn H Pc hl kl L dcid0 cr csel ch sh ca sa early sel hsel hkl t q hq _ s hst htr'
+      guessed ((qs.map (pkWire H Pc L dcid0 sel sh ch)).flatten)
+    rw [hsv, hts] at a3
+    obtain ⟨s2, b1, b2, b3⟩ := ih (fun q' hq' => hdir q' (List.mem_cons_of_mem _ hq')) (t.step q.x) s1 a1 hqs a2
+    refine ⟨s2, b1, b2, ?_⟩
+    simp only [List.map_cons, List.flatten_cons]
+    rw [a3, b3]
+
+/-- the session states a handshake datagram may find: fresh (`QuicSession.__init__` just ran; then the datagram is the
+    client's first Initial and `dcid` its Destination Connection ID), or in the handshake -/
+theorem feedPre_fresh (kl : List Keylog.Key) (h32 : H.sha256.outLen = 32) (dcid0 : Bytes) (sel : SuiteSel)
+    (ch sh ca sa : Bytes) :
+    HsSt H dcid0 sel ch sh ca sa false (feedPre H (params H Pc kl) (St.init (params H Pc [])) dcid0 .v1) {} {} [] [] {} := by
+  have hd : devInitial H .v1 dcid0 = some
+      { clientKey := (quicInitialClientKeys H.sha256 dcid0).key, clientIv := (quicInitialClientKeys H.sha256 dcid0).iv,
+        clientHp := (quicInitialClientKeys H.sha256 dcid0).hp, serverKey := (quicInitialServerKeys H.sha256 dcid0).key,
+        serverIv := (quicInitialServerKeys H.sha256 dcid0).iv, serverHp := (quicInitialServerKeys H.sha256 dcid0).hp } := by
+    unfold devInitial
+    simp only [qver]
+    rw [C15.quic_initial_eq_rfc _ h32]
+  have hp : (params H Pc kl).devInitialKeys .v1 dcid0 = (devInitial H .v1 dcid0).map
+      fun k => (⟨k.serverKey, k.serverIv⟩, ⟨k.clientKey, k.clientIv⟩) := rfl
+  refine ⟨⟨?_, ?_, ?_, ?_, ?_, ?_, ?_, ?_, ?_, ?_⟩, ?_, ?_, ?_, ?_, ?_, ?_, by intro h; cases h⟩
+  all_goals simp [feedPre, handlePacketPre, latchVersion, St.init, setInitialDecryptor, hp, hd, stampVer,
+    HpKeys.withInitial, params, coreOf, initDec]
+
+theorem feedPre_hs (P : Params Tls) (dcid0 dcid : Bytes) (s : St Tls) (hi : HsInv H dcid0 s) :
+    feedPre H P s dcid .v1 = s := by
+  have hl : latchVersion s .v1 = s := by unfold latchVersion; rw [hi.version]; simp
+  have hn : s.decInitial.isNone = false := by rw [hi.init]; rfl
+  unfold feedPre handlePacketPre
+  simp only [hl, hn, Bool.false_eq_true, if_false]
+  exact stampVer_id s hi.ver
+
+end HsRun
+
+section HsMachine
+variable (maskFn : Dissect.MaskFn) (H : Crypto.Prims) (Pc : Cipher.Prims) (info : Nat → Pipeline.Info)
+
+theorem packetIsServer_of_dcidOk (s : St Tls) (cc sc : List Bytes) (hcc : s.clientCids = cc) (hsc : s.serverCids = sc)
+    (srv : Bool) (dcid : Bytes) (hcid : DcidOk cc sc srv dcid) : packetIsServer s (!srv) dcid = srv := by
+  unfold packetIsServer
+  unfold DcidOk at hcid
+  rw [hcc, hsc]
+  have hl : dcid.length > 0 ↔ dcid ≠ [] := List.length_pos_iff
+  cases hs : srv <;> simp only [hs, Bool.false_eq_true, if_false, if_true] at hcid ⊢
+  · by_cases h1 : dcid.length > 0 ∧ dcid ∈ sc ∧ dcid ∉ cc
+    · simp [h1]
+    · have h2 : ¬ (dcid.length > 0 ∧ dcid ∈ cc ∧ dcid ∉ sc) := by rw [hl]; exact hcid
+      simp [h1, h2]
+  · have h1 : ¬ (dcid.length > 0 ∧ dcid ∈ sc ∧ dcid ∉ cc) := by rw [hl]; exact hcid
+    by_cases h2 : dcid.length > 0 ∧ dcid ∈ cc ∧ dcid ∉ sc <;> simp [h1, h2]
+
+/-- the routing DCID the main loop reads off a long-header datagram: that of its first packet -/
+def dgDcid (d : DgH) : Bytes :=
+  match d.pkts with
+  | q :: _ => q.x.dcid
+  | [] => []
+
+structure CarriesH (c : QConn) (w : DgH → Bytes) (p : MainLoop.Pkt) (d : DgH) : Prop where
+  payload : p.payload = w d
+  ts : (info p.tag).ts = d.ts
+  dir : (p.src == c.client) = !d.srv
+
+/-- one handshake datagram: its packets share direction and capture time, its DCID is not one only its sender issued, its
+    packets are `HsPkOk` one after the other -/
+def HsDgOk (L : SealLaws Pc) (dcid0 : Bytes) (sel : SuiteSel) (sh ch : Bytes) (t : Trk) (d : DgH) : Prop :=
+  (∀ q ∈ d.pkts, q.x.srv = d.srv ∧ q.x.ts = d.ts) ∧ DcidOk t.cc t.sc d.srv (dgDcid d) ∧
+  HsPks maskFn H Pc L dcid0 sel sh ch t d.pkts
+
+theorem hs_feed_step (hl : H.Lawful) (kl : List Keylog.Key) (L : SealLaws Pc) (dcid0 cr csel ch sh ca sa : Bytes)
+    (early : Option Bytes) (sel : SuiteSel) (hsel : selectSuite csel = some sel) (hkl : KeylogHas kl cr ch sh ca sa early)
+    (t : Trk) (d : DgH) (hok : HsDgOk maskFn H Pc L dcid0 sel sh ch t d) (rest : List CryptoIn)
+    (c : QConn) (hr : c.raised = none)
+    (hpre : HsSt H dcid0 sel ch sh ca sa t.keyed (feedPre H (params H Pc kl) c.st (dgDcid d) .v1) t.tc t.ts t.cc t.sc t.core)
+    (htr : PTrace cr csel t.core (insOf d.pkts ++ rest)) (p : MainLoop.Pkt)
+    (hcar : CarriesH info c (dgWire H Pc L dcid0 sel sh ch) p d) :
+    let c' := (quicMachine maskFn H Pc info).feed c kl p (dgDcid d) .v1
+    c'.raised = none ∧
+    HsSt H dcid0 sel ch sh ca sa (t.run d.pkts).keyed c'.st (t.run d.pkts).tc (t.run d.pkts).ts (t.run d.pkts).cc
+      (t.run d.pkts).sc (t.run d.pkts).core ∧
+    PTrace cr csel (t.run d.pkts).core rest ∧
+    c'.opts = c.opts ∧ c'.server = c.server ∧ c'.client = c.client ∧ c'.serverMac = c.serverMac ∧
+    c'.clientMac = c.clientMac ∧ c'.ipv6 = c.ipv6 := by
+  obtain ⟨hdir, hcid, hpks⟩ := hok
+  obtain ⟨w1, w2, w3⟩ := hcar
+  have hsrv : packetIsServer (feedPre H (params H Pc kl) c.st (dgDcid d) .v1) (!d.srv) (dgDcid d) = d.srv :=
+    packetIsServer_of_dcidOk _ _ _ hpre.cc hpre.sc _ _ hcid
+  obtain ⟨s', a1, a2, a3⟩ := hs_loop maskFn H Pc hl kl L dcid0 cr csel ch sh ca sa early sel hsel hkl d.srv d.ts (dgDcid d)
+    d.pkts hdir rest t _ hpre hpks htr
+  have hfeed : (quicMachine maskFn H Pc info).feed c kl p (dgDcid d) .v1 = { c with st := s', raised := none } := by
+    simp only [quicMachine, hr, sver]
+    rw [w1, w2, w3]
+    unfold handleDatagram
+    simp only [hsrv]
+    unfold dgWire
+    rw [a3]
+  intro c'
+  have : c' = { c with st := s', raised := none } := hfeed
+  rw [this]
+  exact ⟨rfl, a1, a2, rfl, rfl, rfl, rfl, rfl, rfl⟩
+
+/-- the handshake datagrams, each against the bookkeeping after the previous ones -/
+def HsDgs (L : SealLaws Pc) (dcid0 : Bytes) (sel : SuiteSel) (sh ch : Bytes) : Trk → List DgH → Prop
+  | _, [] => True
+  | t, d :: ds => HsDgOk maskFn H Pc L dcid0 sel sh ch t d ∧ HsDgs L dcid0 sel sh ch (t.run d.pkts) ds
+
+def Trk.runDgs (t : Trk) (ds : List DgH) : Trk := ds.foldl (fun t d => t.run d.pkts) t
+
+def allIns (ds : List DgH) : List CryptoIn := ds.flatMap fun d => insOf d.pkts
+
+/-- the main loop hands over the handshake datagrams (long headers: routing DCID of the first packet, version 1), each with
+    the key log as it is then -/
+def hsFeedAll (QM : MainLoop.QuicMachine Keylog.Key QConn Pipeline.OutPkt) (c : QConn) :
+    List (List Keylog.Key × MainLoop.Pkt × DgH) → QConn
+  | [] => c
+  | (kl, p, d) :: rest => hsFeedAll QM (QM.feed c kl p (dgDcid d) .v1) rest
+
+theorem hs_feed_rest (hl : H.Lawful) (L : SealLaws Pc) (dcid0 cr csel ch sh ca sa : Bytes)
+    (early : Option Bytes) (sel : SuiteSel) (hsel : selectSuite csel = some sel)
+    (items : List (List Keylog.Key × MainLoop.Pkt × DgH)) (hkl : ∀ x ∈ items, KeylogHas x.1 cr ch sh ca sa early)
+    (t : Trk) (c : QConn) (hr : c.raised = none)
+    (hst : HsSt H dcid0 sel ch sh ca sa t.keyed c.st t.tc t.ts t.cc t.sc t.core)
+    (hok : HsDgs maskFn H Pc L dcid0 sel sh ch t (items.map (·.2.2)))
+    (htr : PTrace cr csel t.core (allIns (items.map (·.2.2))))
+    (hcar : ∀ x ∈ items, CarriesH info c (dgWire H Pc L dcid0 sel sh ch) x.2.1 x.2.2) :
+    let c' := hsFeedAll (quicMachine maskFn H Pc info) c items
+    let t' := t.runDgs (items.map (·.2.2))
+    c'.raised = none ∧ HsSt H dcid0 sel ch sh ca sa t'.keyed c'.st t'.tc t'.ts t'.cc t'.sc t'.core ∧
+    c'.opts = c.opts ∧ c'.server = c.server ∧ c'.client = c.client ∧ c'.serverMac = c.serverMac ∧
+    c'.clientMac = c.clientMac ∧ c'.ipv6 = c.ipv6 := by
+  induction items generalizing t c with
+  | nil => exact ⟨hr, hst, rfl, rfl, rfl, rfl, rfl, rfl⟩
+  | cons it rest ih =>
+    obtain ⟨kl, p, d⟩ := it
+    obtain ⟨hd, hds⟩ := hok
+    have htr' : PTrace cr csel t.core (insOf d.pkts ++ allIns (rest.map (·.2.2))) := by
+      simpa [allIns, List.flatMap_cons] using htr
+    have hpre : feedPre H (params H Pc kl) c.st (dgDcid d) .v1 = c.st := feedPre_hs H _ dcid0 _ c.st hst.inv
+    obtain ⟨b1, b2, b3, b4, b5, b6, b7, b8, b9⟩ := hs_feed_step maskFn H Pc info hl kl L dcid0 cr csel ch sh ca sa early sel
+      hsel (hkl (kl, p, d) (List.mem_cons_self ..)) t d hd _ c hr (by rw [hpre]; exact hst) htr' p
+      (hcar (kl, p, d) (List.mem_cons_self ..))
+    obtain ⟨i1, i2, i3, i4, i5, i6, i7, i8⟩ := ih (fun x hx => hkl x (List.mem_cons_of_mem _ hx)) (t.run d.pkts) _ b1 b2 hds b3
+      (fun x hx => by
+        obtain ⟨u1, u2, u3⟩ := hcar x (List.mem_cons_of_mem _ hx)
+        exact ⟨u1, u2, by rw [b6]; exact u3⟩)
+    exact ⟨i1, i2, i3.trans b4, i4.trans b5, i5.trans b6, i6.trans b7, i7.trans b8, i8.trans b9⟩
+
+end HsMachine
+
 end TLX.Props.C02Capstone
